@@ -68,7 +68,7 @@ pub fn judge_hop(p: &PoolView, t: &Transition, sw: &SwapEv, rep: &mut Reporter, 
                 let regime = low_amp_or_skewed(amp, before.len(), &before, decs);
                 let kf = if within_band {
                     Some("KF-C03-a")
-                } else if within_8_bands && regime {
+                } else if regime && (within_8_bands || deficit <= band * crate::ssx::kf_b_cap(before.len(), crate::ssx::skew(&before, decs))) {
                     Some("KF-C03-b")
                 } else {
                     None
